@@ -12,7 +12,7 @@ Definition theorem_names : list string :=
    "c01_memory_read_in_bounds"; "c01_linux_kv_bounded"; "c01_crashpad_info_total"; "c01_mac_crash_info_total"; "c01_fixed_streams_total";
    "c01_print_sites_total"; "c01_crash_queries_total"; "c01_memory_range_sound"; "c01_last_error_in_bounds";
    "c01_crash_address_total"; "c01_elf_debug_id_reads"; "c01_address_lookup_total"; "c01_get_thread_index_total"; "c01_lookups_total"; "c01_layout_pinned"; "c01_unloaded_lookup_in_range"; "c01_const_indices_in_bounds"; "c01_stack_source_total"; "c01_stack_fallback_sound";
-   "c01_thread_print_words_total"; "c01_thread_stack_words_total"; "c01_cpu_tables_pinned"].
+   "c01_thread_print_words_total"; "c01_thread_stack_words_total"; "c01_cpu_tables_pinned"; "c01_lookup_table_alloc_backed"].
 
 Definition mem_str (s : string) (l : list string) : bool := existsb (String.eqb s) l.
 
